@@ -35,28 +35,33 @@ type Engine struct {
 	typeTags  map[string]int
 	funcRefs  map[*ssa.Function]int
 
-	unmodelled   map[string]bool
-	assumptions  map[string]bool
-	usedTrusted  map[string]bool
-	usedLemmas   map[string]bool
-	shared       map[string]bool
-	cfgErrors    []string
-	loopUsed     map[string]bool
-	assertUsed   map[string]bool
-	recApps      map[string]bool
-	recAxioms    []*Term
-	verified     []FuncReport
-	curExec      *Exec
-	feasCount    int
-	tier         string
-	timeoutS     int
-	verbose      bool
-	globalsInit  map[string][]*Term
-	recDepth     int
-	sentinel     map[string]bool
-	sentinelIDs  map[string]int
-	keepScripts  bool
-	orphans      []string
+	unmodelled    map[string]bool
+	assumptions   map[string]bool
+	usedTrusted   map[string]bool
+	usedLemmas    map[string]bool
+	shared        map[string]bool
+	cfgErrors     []string
+	loopUsed      map[string]bool
+	assertUsed    map[string]bool
+	recApps       map[string]bool
+	recAxioms     []*Term
+	recTemplates  map[string]*recTemplate
+	verified      []FuncReport
+	curExec       *Exec
+	feasCount     int
+	tier          string
+	timeoutS      int
+	verbose       bool
+	globalsInit   map[string][]*Term
+	recDepth      int
+	debugQ        bool
+	debugN        int
+	litCache      map[string][]literalRow
+	pkgOfFile     map[*ContractFile]string
+	sentinel      map[string]bool
+	sentinelIDs   map[string]int
+	keepScripts   bool
+	orphans       []string
 	extraEvidence map[string]interface{}
 }
 
@@ -83,11 +88,11 @@ func NewEngine(l *Loaded) *Engine {
 	}
 }
 
-func (E *Engine) configError(s string)     { E.cfgErrors = append(E.cfgErrors, s) }
-func (E *Engine) noteUnmodelled(s string)  { E.unmodelled[s] = true }
-func (E *Engine) noteAssumption(s string)  { E.assumptions[s] = true }
+func (E *Engine) configError(s string)         { E.cfgErrors = append(E.cfgErrors, s) }
+func (E *Engine) noteUnmodelled(s string)      { E.unmodelled[s] = true }
+func (E *Engine) noteAssumption(s string)      { E.assumptions[s] = true }
 func (E *Engine) noteShared(x *Exec, s string) { E.shared[s] = true }
-func (E *Engine) noteLemmaUse(l *Lemma)    { E.usedLemmas[l.Name] = true }
+func (E *Engine) noteLemmaUse(l *Lemma)        { E.usedLemmas[l.Name] = true }
 func (E *Engine) noteContractUse(fc *FuncContract) {
 	if fc.Trusted {
 		E.usedTrusted[fc.Name] = true
@@ -113,6 +118,10 @@ func (E *Engine) loopsOf(fn *ssa.Function) *loopInfo {
 // belongs to ("" for shared spec files whose func names are full names).
 func (E *Engine) AddContractFile(cf *ContractFile, pkgPath string) {
 	E.files = append(E.files, cf)
+	if E.pkgOfFile == nil {
+		E.pkgOfFile = map[*ContractFile]string{}
+	}
+	E.pkgOfFile[cf] = pkgPath
 	for _, f := range cf.Funcs {
 		key := f.Name
 		if pkgPath != "" && !strings.Contains(f.Name, "/") && !isFullStdName(f.Name) {
@@ -330,33 +339,96 @@ func (E *Engine) funcRef(f *ssa.Function) *Term {
 
 // ---------------------------------------------------------------- recursive pure functions
 
-// noteRecApp records an application of a recursive pure function and adds its
-// one-level unfolding as an axiom instance.
+type recTemplate struct {
+	params []*Term
+	app    *Term
+	body   *Term
+}
+
+// noteRecApp makes sure the unfolding template of a recursive pure function
+// exists: forall params. f(params) == body(params), kept as a pair of terms
+// over template variables and instantiated for the applications that occur.
 func (E *Engine) noteRecApp(x *Exec, pf *PureFunc, app *Term, args []Val) {
-	key := app.String()
-	if E.recApps[key] || len(E.recApps) > 4000 {
+	if E.recTemplates == nil {
+		E.recTemplates = map[string]*recTemplate{}
+	}
+	if _, ok := E.recTemplates[app.Name]; ok {
 		return
 	}
-	E.recApps[key] = true
+	E.recTemplates[app.Name] = nil // guard against recursion while building
 	vars := map[string]Val{}
+	var params []*Term
+	mkv := func(name string, v Val) Val {
+		nv := Val{T: v.T, L: make([]*Term, len(v.L))}
+		for i, l := range v.L {
+			p := Var(fmt.Sprintf("tpl.%s.%s.%d", app.Name, name, i), l.S)
+			params = append(params, p)
+			nv.L[i] = p
+		}
+		return nv
+	}
 	i := 0
 	if pf.Recv != nil {
-		vars[pf.Recv.Name] = args[0]
+		vars[pf.Recv.Name] = mkv(pf.Recv.Name, args[0])
 		i = 1
 	}
 	for j, p := range pf.Params {
-		vars[p.Name] = args[i+j]
+		vars[p.Name] = mkv(p.Name, args[i+j])
 	}
 	st := x.newState()
 	env := &Env{x: x, st: st, old: st, vars: vars, depth: 30}
-	saved := E.recDepth
-	E.recDepth++
-	defer func() { E.recDepth = saved }()
-	if E.recDepth > 2 {
-		return
-	}
 	body := x.eval(env, pf.Body)
-	E.recAxioms = append(E.recAxioms, Eq(app, body.L[0]))
+	tapp := App(app.Name, app.S, params...)
+	E.recTemplates[app.Name] = &recTemplate{params: params, app: tapp, body: body.L[0]}
+}
+
+// recAxiomsFor: one-level unfolding axioms for the recursive applications that
+// occur (closed terms only) in the given terms.
+func (E *Engine) recAxiomsFor(ts []*Term, goal *Term) []*Term {
+	if len(E.recTemplates) == 0 {
+		return nil
+	}
+	present := map[string]*Term{}
+	bound := map[string]int{}
+	var walk func(t *Term)
+	walk = func(t *Term) {
+		if t.Op == "app" {
+			if tpl := E.recTemplates[t.Name]; tpl != nil && len(tpl.params) == len(t.Args) && closed(t, bound) {
+				present[t.String()] = t
+			}
+		}
+		for _, b := range t.Bound {
+			bound[b.Name]++
+		}
+		for _, a := range t.Args {
+			walk(a)
+		}
+		for _, b := range t.Bound {
+			bound[b.Name]--
+		}
+	}
+	for _, t := range ts {
+		walk(t)
+	}
+	if goal != nil {
+		walk(goal)
+	}
+	keys := make([]string, 0, len(present))
+	for k := range present {
+		keys = append(keys, k)
+	}
+	sort.Strings(keys)
+	var out []*Term
+	for _, k := range keys {
+		t := present[k]
+		tpl := E.recTemplates[t.Name]
+		m := map[string]*Term{}
+		for i, p := range tpl.params {
+			m[p.Name] = t.Args[i]
+		}
+		out = append(out, Eq(t, Subst(tpl.body, m)))
+	}
+	return out
 }
 
 // ---------------------------------------------------------------- obligations
@@ -373,6 +445,7 @@ func (E *Engine) addOblig(x *Exec, st *State, kind, label string, goal *Term, sr
 		return
 	}
 	o := E.getOblig(name, x, kind, label, src, where)
+	goal = E.skolemize(goal)
 	hyps := append([]*Term(nil), st.pc...)
 	hyps = append(hyps, extra...)
 	// per-function hints
@@ -381,6 +454,9 @@ func (E *Engine) addOblig(x *Exec, st *State, kind, label string, goal *Term, sr
 	}
 	q := &Query{Hyps: hyps, Goal: goal, Path: strings.Join(st.trace, ",")}
 	q.Model = x.modelTerms(st)
+	if x.fc != nil && len(x.fc.Insts) > 0 && x.topFrame != nil {
+		q.Hints = x.instHints(st, goal)
+	}
 	o.Queries = append(o.Queries, q)
 }
 
@@ -415,6 +491,10 @@ func (x *Exec) useHints(st *State) []*Term {
 	}
 	env := x.envFor(st, top)
 	for _, u := range x.fc.Uses {
+		if !isLemmaUse(x.E, u.E) {
+			x.E.configError(fmt.Sprintf("%s:%d: use: only applications of lemmas (possibly under forall) may be used", u.File, u.Line))
+			continue
+		}
 		func() {
 			defer func() {
 				if r := recover(); r != nil {
@@ -427,6 +507,40 @@ func (x *Exec) useHints(st *State) []*Term {
 		}()
 	}
 	return out
+}
+
+// instHints evaluates the function's inst clauses against the goal's skolems.
+func (x *Exec) instHints(st *State, goal *Term) map[string][]*Term {
+	sk := map[string]*Term{}
+	collectSkolems(goal, sk)
+	env := x.envFor(st, x.topFrame)
+	for n, v := range sk {
+		env.vars[baseName(n)] = mathVal(v)
+	}
+	out := map[string][]*Term{}
+	for _, h := range x.fc.Insts {
+		func() {
+			defer func() {
+				if r := recover(); r != nil {
+					if _, ok := r.(evalError); !ok {
+						panic(r)
+					}
+				}
+			}()
+			v := x.eval(env, h.E)
+			if len(v.L) == 1 && v.L[0].S.K == SInt {
+				out[h.Binder] = append(out[h.Binder], v.L[0])
+			}
+		}()
+	}
+	return out
+}
+
+func isLemmaUse(E *Engine, e *SExpr) bool {
+	for e.K == "forall" {
+		e = e.X
+	}
+	return e.K == "call" && e.X.K == "ident" && E.lemmas[e.X.Name] != nil
 }
 
 // modelTerms: what to ask the solver for when a query is sat.
@@ -543,40 +657,44 @@ func (E *Engine) VerifyFunction(fn *ssa.Function, fc *FuncContract) {
 	// vacuity: preconditions satisfiable
 	E.addCover(x, st, "requires")
 	results := fn.Signature.Results()
-	fr.ret = func(st2 *State, res []Val) {
-		penv := &Env{x: x, st: st2, old: fr.entry, vars: map[string]Val{}, pkgPath: fnPkgPath(fn), fc: fc}
-		for n, v := range fr.params {
-			penv.vars[n] = v
-		}
-		for i, fv := range fn.FreeVars {
-			_ = i
-			_ = fv
-		}
-		x.bindGhost(penv, fc, st2)
-		x.bindResults(penv, results, x.tupleOf(results, res))
-		if x.nret < 4 {
-			x.nret++
-			E.addCover(x, st2, "returns")
-		}
-		for _, e := range fc.Ensures {
-			E.addPost(x, st2, penv, e)
-		}
-		if ifc != nil && len(fn.Params) > 0 {
-			penv.vars[E.recvNameFor(ifc)] = fr.params[fn.Params[0].Name()]
-			if pn, ok := ifc.Flags["params"]; ok {
-				for i, n := range strings.Fields(pn) {
-					if i+1 < len(fn.Params) {
-						penv.vars[n] = fr.params[fn.Params[i+1].Name()]
+	var mkRet func(fr *Frame) func(st2 *State, res []Val)
+	mkRet = func(fr *Frame) func(st2 *State, res []Val) {
+		return func(st2 *State, res []Val) {
+			penv := &Env{x: x, st: st2, old: fr.entry, vars: map[string]Val{}, pkgPath: fnPkgPath(fn), fc: fc}
+			for n, v := range fr.params {
+				penv.vars[n] = v
+			}
+			for i, fv := range fn.FreeVars {
+				_ = i
+				_ = fv
+			}
+			x.bindGhost(penv, fc, st2)
+			x.bindResults(penv, results, x.tupleOf(results, res))
+			if x.nret < 4 {
+				x.nret++
+				E.addCover(x, st2, "returns")
+			}
+			for _, e := range fc.Ensures {
+				E.addPost(x, st2, penv, e)
+			}
+			if ifc != nil && len(fn.Params) > 0 {
+				penv.vars[E.recvNameFor(ifc)] = fr.params[fn.Params[0].Name()]
+				if pn, ok := ifc.Flags["params"]; ok {
+					for i, n := range strings.Fields(pn) {
+						if i+1 < len(fn.Params) {
+							penv.vars[n] = fr.params[fn.Params[i+1].Name()]
+						}
 					}
 				}
-			}
-			for _, e := range ifc.Ensures {
-				ie := e
-				ie.Label = "iface." + labelOr(e, "ensures")
-				E.addPost(x, st2, penv, ie)
+				for _, e := range ifc.Ensures {
+					ie := e
+					ie.Label = "iface." + labelOr(e, "ensures")
+					E.addPost(x, st2, penv, ie)
+				}
 			}
 		}
 	}
+	fr.ret = mkRet(fr)
 	cases := fc.Cases
 	if len(cases) == 0 {
 		x.run(st, fr, fn.Blocks[0], 0, nil)
@@ -587,13 +705,32 @@ func (E *Engine) VerifyFunction(fn *ssa.Function, fc *FuncContract) {
 	for _, c := range cases {
 		cst := st.clone()
 		ct := x.evalBool(env, c.E)
+		cst.assume(And(neg...))
 		cst.assume(ct)
 		neg = append(neg, Not(ct))
 		x.caseName = labelOr(c, "case")
 		cfr := *fr
+		// equalities "input == constant" of the case are substituted into the
+		// entry state, so that the case is verified over simpler terms
+		sub := map[string]*Term{}
+		for _, eq := range flattenAnd([]*Term{ct}) {
+			if eq.Op == "=" && eq.Args[0].Op == "var" && eq.Args[1].IsConst() {
+				sub[eq.Args[0].Name] = eq.Args[1]
+			} else if eq.Op == "=" && eq.Args[1].Op == "var" && eq.Args[0].IsConst() {
+				sub[eq.Args[1].Name] = eq.Args[0]
+			}
+		}
+		if len(sub) > 0 {
+			cst.substitute(sub)
+			np := map[string]Val{}
+			for n, v := range cfr.params {
+				np[n] = substVal(v, sub)
+			}
+			cfr.params = np
+		}
 		cfr.entry = cst.clone()
 		cfr.callOrd = map[string]int{}
-		cfr.ret = fr.ret
+		cfr.ret = mkRet(&cfr)
 		x.topFrame = &cfr
 		x.run(cst, &cfr, fn.Blocks[0], 0, nil)
 	}
@@ -603,6 +740,7 @@ func (E *Engine) VerifyFunction(fn *ssa.Function, fc *FuncContract) {
 	ofr := *fr
 	ofr.entry = ost.clone()
 	ofr.callOrd = map[string]int{}
+	ofr.ret = mkRet(&ofr)
 	x.topFrame = &ofr
 	x.run(ost, &ofr, fn.Blocks[0], 0, nil)
 	x.caseName = ""
